@@ -20,6 +20,8 @@ func propC19(r *Report, tier string) {
 	ruleNilSlotsNotDereferenced(r, "K6-nil-slots-not-dereferenced", "search/highlight")
 	ruleFoldBufferCoversWorstCase(r, "K11-fold-buffer-worst-case")
 	ruleTokenOffsetsAreByteOffsets(r, "K11-token-offsets-are-bytes")
+	ruleSentinelOffsetsGuarded(r, "K11-sentinel-offsets-guarded")
+	ruleMaskKeepsByteLength(r, "K11-mask-keeps-byte-length")
 	ruleIndexMinusOneGuarded(r, "K5-index-minus-one-guarded", func(rel string) bool {
 		return strings.HasPrefix(rel, "analysis/") || strings.HasPrefix(rel, "search/highlight")
 	})
